@@ -156,7 +156,7 @@ func rrCase[R any](t *rapid.T, withResult bool) {
 		// the hook is optional (nil is the default): the listener has to clean up all the same
 		noHook := rapid.IntRange(0, 3).Draw(t, "withoutOnListenForReplyFinished") == 0
 		// replies of OTHER kinds of requests on the shared reply topic: their results need not decode into this caller's type
-		foreign := rapid.SliceOfN(rapid.SampledFrom([]string{`12345`, `"text"`, `[1,2]`, `{"CmdID":7,"Attempt":"x"}`, `not json`, ``}), 0, 6).Draw(t, "foreignNotifications")
+		foreign := rapid.SliceOfN(rapid.SampledFrom([]string{`12345`, `"text"`, `[1,2]`, `{"CmdID":7,"Attempt":"x"}`, `not json`, ``, `{"CmdID":"someone else","Attempt":1}`, `{}`}), 0, 6).Draw(t, "foreignNotifications")
 		// sustained foreign traffic: other requests keep being answered on the shared topic for longer than the timeout;
 		// the timeout of THIS request runs from its start all the same
 		sustained := timeout != nil && *timeout > 0 && *timeout < time.Hour && !noHook && rapid.IntRange(0, 7).Draw(t, "sustainedForeignTraffic") == 0
@@ -378,6 +378,13 @@ func rrCase[R any](t *rapid.T, withResult bool) {
 				time.Sleep(time.Duration(k%3) * 300 * time.Microsecond)
 				m := message.NewMessage(fmt.Sprintf("foreign-%d", k), []byte(payload))
 				m.Metadata[requestreply.OperationIDMetadataKey] = fmt.Sprintf("foreign-operation-%d", k)
+				switch k % 3 {
+				case 1:
+					// other systems reply on the shared topic too: a notification that names no operation is nobody's
+					delete(m.Metadata, requestreply.OperationIDMetadataKey)
+				case 2:
+					m.Metadata[requestreply.OperationIDMetadataKey] = ""
+				}
 				m.Metadata[requestreply.HasErrorMetadataKey] = "0"
 				m.Metadata["cmd"] = "a foreign request"
 				gc.Publish("reply", m)
